@@ -228,11 +228,18 @@ func SimTime() time.Duration {
 	return time.Since(s.start)
 }
 
+// RunStartHook, when set, is called at the start of every simulated execution (the harness's
+// wall-clock watchdog restarts its timer there: a run of the harness may consist of many executions).
+var RunStartHook func()
+
 // Run executes body as task 0 of a new simulation inside a synctest bubble and returns the
 // simulation record.  sched decides every scheduling choice.
 //
 //go:norace
 func Run(t *testing.T, cfg Config, sched *Tape, body func()) (s *Sim) {
+	if RunStartHook != nil {
+		RunStartHook()
+	}
 	if cfg.MaxSteps == 0 {
 		cfg.MaxSteps = 200000
 	}
